@@ -82,35 +82,35 @@ macro_rules! tuple_harness {
     };
 }
 
-//@K props=C14,C01,C04 tier=quick label=full feat=std fn=<(T1,T2)asClause>::deconstruct
+//@K props=C14,C01,C04,C18 tier=quick label=full feat=std fn=<(T1,T2)asClause>::deconstruct
 tuple_harness!(tuple_2, 2, [0, 1]);
-//@K props=C14,C01,C04 tier=quick label=full feat=std fn=<(T1..T3)asClause>::deconstruct
+//@K props=C14,C01,C04,C18 tier=quick label=full feat=std fn=<(T1..T3)asClause>::deconstruct
 tuple_harness!(tuple_3, 3, [0, 1, 2]);
-//@K props=C14,C01,C04 tier=quick label=full feat=std fn=<(T1..T4)asClause>::deconstruct
+//@K props=C14,C01,C04,C18 tier=quick label=full feat=std fn=<(T1..T4)asClause>::deconstruct
 tuple_harness!(tuple_4, 4, [0, 1, 2, 3]);
-//@K props=C14,C01,C04 tier=quick label=full feat=std fn=<(T1..T5)asClause>::deconstruct
+//@K props=C14,C01,C04,C18 tier=quick label=full feat=std fn=<(T1..T5)asClause>::deconstruct
 tuple_harness!(tuple_5, 5, [0, 1, 2, 3, 4]);
-//@K props=C14,C01,C04 tier=quick label=full feat=std fn=<(T1..T6)asClause>::deconstruct
+//@K props=C14,C01,C04,C18 tier=quick label=full feat=std fn=<(T1..T6)asClause>::deconstruct
 tuple_harness!(tuple_6, 6, [0, 1, 2, 3, 4, 5]);
-//@K props=C14,C01,C04 tier=quick label=full feat=std fn=<(T1..T7)asClause>::deconstruct
+//@K props=C14,C01,C04,C18 tier=quick label=full feat=std fn=<(T1..T7)asClause>::deconstruct
 tuple_harness!(tuple_7, 7, [0, 1, 2, 3, 4, 5, 6]);
-//@K props=C14,C01,C04 tier=quick label=full feat=std fn=<(T1..T8)asClause>::deconstruct
+//@K props=C14,C01,C04,C18 tier=quick label=full feat=std fn=<(T1..T8)asClause>::deconstruct
 tuple_harness!(tuple_8, 8, [0, 1, 2, 3, 4, 5, 6, 7]);
-//@K props=C14,C01,C04 tier=quick label=full feat=std fn=<(T1..T9)asClause>::deconstruct
+//@K props=C14,C01,C04,C18 tier=quick label=full feat=std fn=<(T1..T9)asClause>::deconstruct
 tuple_harness!(tuple_9, 9, [0, 1, 2, 3, 4, 5, 6, 7, 8]);
-//@K props=C14,C01,C04 tier=quick label=full feat=std fn=<(T1..T10)asClause>::deconstruct
+//@K props=C14,C01,C04,C18 tier=quick label=full feat=std fn=<(T1..T10)asClause>::deconstruct
 tuple_harness!(tuple_10, 10, [0, 1, 2, 3, 4, 5, 6, 7, 8, 9]);
-//@K props=C14,C01,C04 tier=quick label=full feat=std fn=<(T1..T11)asClause>::deconstruct
+//@K props=C14,C01,C04,C18 tier=quick label=full feat=std fn=<(T1..T11)asClause>::deconstruct
 tuple_harness!(tuple_11, 11, [0, 1, 2, 3, 4, 5, 6, 7, 8, 9, 10]);
-//@K props=C14,C01,C04 tier=quick label=full feat=std fn=<(T1..T12)asClause>::deconstruct
+//@K props=C14,C01,C04,C18 tier=quick label=full feat=std fn=<(T1..T12)asClause>::deconstruct
 tuple_harness!(tuple_12, 12, [0, 1, 2, 3, 4, 5, 6, 7, 8, 9, 10, 11]);
-//@K props=C14,C01,C04 tier=quick label=full feat=std fn=<(T1..T13)asClause>::deconstruct
+//@K props=C14,C01,C04,C18 tier=quick label=full feat=std fn=<(T1..T13)asClause>::deconstruct
 tuple_harness!(tuple_13, 13, [0, 1, 2, 3, 4, 5, 6, 7, 8, 9, 10, 11, 12]);
-//@K props=C14,C01,C04 tier=quick label=full feat=std fn=<(T1..T14)asClause>::deconstruct
+//@K props=C14,C01,C04,C18 tier=quick label=full feat=std fn=<(T1..T14)asClause>::deconstruct
 tuple_harness!(tuple_14, 14, [0, 1, 2, 3, 4, 5, 6, 7, 8, 9, 10, 11, 12, 13]);
-//@K props=C14,C01,C04 tier=quick label=full feat=std fn=<(T1..T15)asClause>::deconstruct
+//@K props=C14,C01,C04,C18 tier=quick label=full feat=std fn=<(T1..T15)asClause>::deconstruct
 tuple_harness!(tuple_15, 15, [0, 1, 2, 3, 4, 5, 6, 7, 8, 9, 10, 11, 12, 13, 14]);
-//@K props=C14,C01,C04 tier=quick label=full feat=std fn=<(T1..T16)asClause>::deconstruct
+//@K props=C14,C01,C04,C18 tier=quick label=full feat=std fn=<(T1..T16)asClause>::deconstruct
 tuple_harness!(tuple_16, 16, [0, 1, 2, 3, 4, 5, 6, 7, 8, 9, 10, 11, 12, 13, 14, 15]);
 
 /// Clause for (): Ok, pushes nothing.
